@@ -84,7 +84,9 @@ class Spec:
             if s.state in (SM.OPEN, SM.HC_LOCAL):
                 acts.append("rx:end:%d" % sid)
             if s.state == SM.RES_LOCAL:
-                acts += ["l:activate:%d" % sid, "l:activate:%d:es" % sid]
+                acts += ["l:activate:%d" % sid, "l:activate:%d:es" % sid, "l:badactivate:%d" % sid]
+            if not self.client and not s.local_init and s.sent == "none" and s.state in (SM.OPEN, SM.HC_REMOTE):
+                acts.append("l:info:%d" % sid)          # an informational response: no transition, nothing to count
             if s.state == SM.RES_REMOTE:
                 acts += ["rx:activate:%d" % sid, "rx:activate:%d:es" % sid]
             acts.append("l:rst:%d" % sid)
@@ -188,6 +190,19 @@ class Spec:
                 st.dead = True
                 return Step(out + "-conn-error", viols, prune=True)
             out += "-rejected" if rejected else "-ok"
+        elif parts[:2] == ["l", "badactivate"]:
+            # response headers the library must refuse (TE other than trailers): the promised stream stays reserved
+            o = h.api("send_headers", int(parts[2]), H.ni(H.RESP + [(b"te", b"gzip")]))
+            if o.kind == "ok" or o.raw:
+                bad("invalid-headers-accepted", "%s -> %s" % (lab, o.brief()))
+                st.dead = True
+                return Step("badactivate-accepted", viols, prune=True)
+        elif parts[:2] == ["l", "info"]:
+            o = h.api("send_headers", int(parts[2]), H.ni([(b":status", b"103")]))
+            if o.kind != "ok":
+                bad("informational-refused", "%s -> %s" % (lab, o.brief()))
+                st.dead = True
+                return Step("info-refused", viols, prune=True)
         elif parts[:2] == ["l", "push"]:
             parents = [s for s, x in sorted(m.streams.items()) if not x.local_init and x.state in (SM.OPEN, SM.HC_REMOTE)]
             if not parents or st.h.conn.remote_settings.enable_push == 0:
